@@ -1090,26 +1090,16 @@ def _grid_sampler(eng, func, args, kwargs, out, pre):
     sizes = x.shape[2:]  # (D,)H,W ; grid last dim ordered (x, y, z) -> W, H, D
     osz = g.shape[1:-1]
     res = np.empty((N, C) + tuple(osz), dtype=object)
+    cands = list(itertools.product(*[range(max(sizes[d] - 1, 1)) for d in range(nd)]))
     for n in range(N):
         for opos in np.ndindex(*osz):
-            # continuous index per tensor dim d (0 = slowest)
-            cidx = []
-            for d in range(nd):
-                comp = g[(n,) + opos + (nd - 1 - d,)]
-                ci = _unnormalize(comp, sizes[d], bool(ac))
-                if pad == 1:
-                    ci = tm.min_(tm.max_(ci, tm.ZERO), tm.const(sizes[d] - 1))
-                cidx.append(ci)
-            wit = [eng.evalf(ci) for ci in cidx]
-            if any(w != w for w in wit):
+            # continuous index per tensor dim d (0 = slowest), before any clamping
+            raw = [_unnormalize(g[(n,) + opos + (nd - 1 - d,)], sizes[d], bool(ac)) for d in range(nd)]
+            wraw = [eng.evalf(ci) for ci in raw]
+            if any(w != w for w in wraw):
                 raise UnsupportedOp("grid_sampler: non-finite witness coordinate")
-            cell = [int(math.floor(w)) for w in wit]
-            # clamp witness cell so that the upper neighbour exists where possible (w == size-1)
-            for d in range(nd):
-                if cell[d] >= sizes[d] - 1 and wit[d] == sizes[d] - 1 and sizes[d] > 1 and pad == 1:
-                    cell[d] = sizes[d] - 2
 
-            def poly(cell_, c):
+            def poly(cidx, cell_, c):
                 parts = []
                 for corner in itertools.product((0, 1), repeat=nd):
                     idx = tuple(cell_[d] + corner[d] for d in range(nd))
@@ -1124,19 +1114,18 @@ def _grid_sampler(eng, func, args, kwargs, out, pre):
                         parts.append(tm.mul(wgt, x[(n, c) + cl]))
                 return tm.addn(parts)
 
+            inside = all(0 <= wraw[d] <= sizes[d] - 1 for d in range(nd))
             collapsed = False
-            if eng.gs_mode == "auto" and eng.lemma_solver is not None:
+            if eng.gs_mode == "auto" and eng.lemma_solver is not None and inside and all(s_ > 1 for s_ in sizes):
                 # lemma chaining: if every candidate cell yields the same polynomial the case split vanishes
-                cands = list(itertools.product(*[range(max(sizes[d] - 1, 1)) for d in range(nd)]))
-                base = [poly(cell_ if True else None, 0) for cell_ in [tuple(min(max(c_, 0), max(sizes[d] - 2, 0)) for d, c_ in enumerate(cell))]]
-                wc = tuple(min(max(c_, 0), max(sizes[d] - 2, 0)) for d, c_ in enumerate(cell))
+                wc = tuple(min(max(int(math.floor(wraw[d])), 0), sizes[d] - 2) for d in range(nd))
                 ok = True
+                polys = []
                 for c in range(C):
-                    p0 = poly(wc, c)
+                    p0 = poly(raw, wc, c)
+                    polys.append(p0)
                     for cc in cands:
-                        if cc == wc:
-                            continue
-                        if not eng.lemma_solver(poly(cc, c), p0):
+                        if cc != wc and not eng.lemma_solver(poly(raw, cc, c), p0):
                             ok = False
                             break
                     if not ok:
@@ -1144,18 +1133,41 @@ def _grid_sampler(eng, func, args, kwargs, out, pre):
                 if ok:
                     collapsed = True
                     for d in range(nd):
-                        # inside the hull of sample centres (outside it zeros-padding blends with 0)
-                        eng.assume(tm.le(tm.ZERO, cidx[d]))
-                        eng.assume(tm.le(cidx[d], tm.const(sizes[d] - 1)))
+                        # claim restricted to the closed hull of the sample centres (zeros padding blends with 0
+                        # outside of it, border padding clamps; inside, both are the identity)
+                        eng.assume(tm.le(tm.ZERO, raw[d]))
+                        eng.assume(tm.le(raw[d], tm.const(sizes[d] - 1)))
                     for c in range(C):
-                        res[(n, c) + opos] = poly(wc, c)
+                        res[(n, c) + opos] = polys[c]
                     eng.gs_lemmas["collapsed"] += 1
             if not collapsed:
+                # witness-cell mode: the clamp of border padding and the interpolation cell are resolved at the
+                # witness and recorded as path conditions on the raw coordinate (no ite terms are generated)
+                cidx, cell = [], []
                 for d in range(nd):
-                    eng.branch(tm.le(tm.const(cell[d]), cidx[d]), True, kind="cell")
-                    eng.branch(tm.lt(cidx[d], tm.const(cell[d] + 1)), True, kind="cell")
+                    w = wraw[d]
+                    hi = sizes[d] - 1
+                    if pad == 1 and w < 0:
+                        eng.branch(tm.le(raw[d], tm.ZERO), True, kind="cell")
+                        cidx.append(tm.ZERO)
+                        cell.append(0)
+                    elif pad == 1 and w > hi:
+                        eng.branch(tm.le(tm.const(hi), raw[d]), True, kind="cell")
+                        cidx.append(tm.const(hi))
+                        cell.append(max(hi - 1, 0))
+                    else:
+                        k = int(math.floor(w))
+                        if pad == 1 and k >= hi and hi > 0:
+                            k = hi - 1  # w == size-1 exactly: last cell, weight 1 on its upper corner
+                            eng.branch(tm.le(tm.const(k), raw[d]), True, kind="cell")
+                            eng.branch(tm.le(raw[d], tm.const(k + 1)), True, kind="cell")
+                        else:
+                            eng.branch(tm.le(tm.const(k), raw[d]), True, kind="cell")
+                            eng.branch(tm.lt(raw[d], tm.const(k + 1)), True, kind="cell")
+                        cidx.append(raw[d])
+                        cell.append(k)
                 for c in range(C):
-                    res[(n, c) + opos] = poly(cell, c)
+                    res[(n, c) + opos] = poly(cidx, cell, c)
                 eng.gs_lemmas["witness_cell"] += 1
     eng.set_terms(out, res)
 
